@@ -111,8 +111,21 @@ impl E2Run for Dhcp {
                     Some(Verdict { copies })
                 }))
             });
+            // a quarter of the runs give the server two interfaces; hardware addresses are
+            // unique per network only, so clients on different networks share them. A client is
+            // identified by (network << 48 | hardware address) everywhere below.
+            let two_nets = sim::chance(1, 4);
+            if two_nets {
+                sim::count("probe_server_with_two_interfaces");
+            }
             let net = Network::basic();
             sim::network_index(Arc::as_ptr(&net) as usize);
+            let net_b = Network::basic();
+            if two_nets {
+                sim::network_index(Arc::as_ptr(&net_b) as usize);
+            }
+            let nets = [net.clone(), net_b.clone()];
+            let pick_net = move |k: usize| -> usize { if two_nets && k % 2 == 1 { 1 } else { 0 } };
             let n_real = sim::choose(13) as usize;
             let n_harness = if n_real == 0 { 1 + sim::choose(3) as usize } else { sim::choose(4) as usize };
             // harness plans: (join time, release after?, rejoin after?)
@@ -135,7 +148,7 @@ impl E2Run for Dhcp {
             let end = start + size.max(1) - 1;
             *p2.lock().unwrap() = (start, end, exact);
             let table = || -> IpTable<Recipient> { [("0.0.0.0/0", Recipient::new(0, None))].into_iter().collect() };
-            let spci = Pci::new([net.clone()]);
+            let spci = if two_nets { Pci::new([net.clone(), net_b.clone()]) } else { Pci::new([net.clone()]) };
             m2.lock().unwrap().push(spci.mac_addresses().next().unwrap());
             let server = DhcpServer::new(
                 Ipv4Address::new(SERVER),
@@ -155,8 +168,9 @@ impl E2Run for Dhcp {
                 }
             };
             for c in 0..n_real {
-                let pci = Pci::new([net.clone()]);
-                m2.lock().unwrap().push(pci.mac_addresses().next().unwrap());
+                let ni = pick_net(c);
+                let pci = Pci::new([nets[ni].clone()]);
+                m2.lock().unwrap().push(((ni as u64) << 48) | pci.mac_addresses().next().unwrap());
                 let log = l2.clone();
                 let app = App::<0>::new(c + 1).script(move |ctx: Ctx| async move {
                     let dhcp = ctx.machine.protocol::<DhcpClient>().unwrap();
@@ -182,8 +196,9 @@ impl E2Run for Dhcp {
             }
             for (h, (join, release, rejoin)) in hplans.into_iter().enumerate() {
                 let id = n_real + h + 1;
-                let pci = Pci::new([net.clone()]);
-                m2.lock().unwrap().push(pci.mac_addresses().next().unwrap());
+                let ni = pick_net(n_real + h);
+                let pci = Pci::new([nets[ni].clone()]);
+                m2.lock().unwrap().push(((ni as u64) << 48) | pci.mac_addresses().next().unwrap());
                 let log = l2.clone();
                 let app = App::<0>::new(id)
                     .pre(|ctx: &Ctx| {
@@ -290,11 +305,11 @@ impl E2Run for Dhcp {
             };
             let ip = m.your_ip.to_bytes();
             match m.msg_type {
-                MessageType::Ack => server_events.push((f.time_ms, 2, f.event, ip, f.destination)),
+                MessageType::Ack => server_events.push((f.time_ms, 2, f.event, ip, f.destination.map(|m| ((f.network as u64) << 48) | m))),
                 MessageType::Release => {
                     let d = f.delays.iter().copied().min().unwrap_or(0);
                     server_events.push((f.time_ms + d, 1, f.event, ip, None));
-                    released_at.insert((f.time_ms + d, ip, f.sender));
+                    released_at.insert((f.time_ms + d, ip, ((f.network as u64) << 48) | f.sender));
                 }
                 _ => {}
             }
